@@ -72,6 +72,9 @@ func floor(s *slip.Scope, f slip.Object, args slip.List, depth int) slip.Values 
 
 	switch tn := num.(type) {
 	case slip.Fixnum:
+		if q, r = fixnumQuoOverflow(tn, div.(slip.Fixnum)); q != nil {
+			break
+		}
 		q = tn / div.(slip.Fixnum)
 		r = tn - q.(slip.Fixnum)*div.(slip.Fixnum)
 		if 0 < div.(slip.Fixnum) {
@@ -206,6 +209,18 @@ func floor(s *slip.Scope, f slip.Object, args slip.List, depth int) slip.Values 
 		slip.TypePanic(s, depth, "number", tn, "real")
 	}
 	return slip.Values{q, r}
+}
+
+// fixnumQuoOverflow handles the one division of fixnums with a quotient that
+// is not a fixnum, most-negative-fixnum divided by -1. The quotient is then a
+// bignum and the remainder zero. For all other operands nil is returned.
+func fixnumQuoOverflow(num, div slip.Fixnum) (q, r slip.Object) {
+	if num == math.MinInt64 && div == -1 {
+		var z big.Int
+		q = (*slip.Bignum)(z.Neg(big.NewInt(math.MinInt64)))
+		r = slip.Fixnum(0)
+	}
+	return
 }
 
 // zeroDivisorCheck raises a division-by-zero error if the divisor of a
